@@ -62,8 +62,9 @@ def confirm(seed, wt, prop):
             fails += rc1 != 0
         res["demo_with_change"] = {"failed_runs_of_3": fails, "tail": out1[-300:]}
         junit = os.path.join(scratch, "junit.xml")
-        rc2, out2 = sh("%s -m pytest -q -p no:cacheprovider --timeout=900 --continue-on-collection-errors --junitxml=%s tests" % (PY, junit),
-                       cwd=scratch, timeout=1500, env=env)
+        # private network namespace: other people run the same suite on the same fixed ports at the same time
+        rc2, out2 = sh("unshare -rn sh -c 'ip link set lo up; ip route add default dev lo; %s -m pytest -q -p no:cacheprovider --timeout=900 "
+                       "--continue-on-collection-errors --deselect tests/test_gdb.py::Test_GDB::test_gdb --junitxml=%s tests'" % (PY, junit), cwd=scratch, timeout=1500, env=env)
         passed = set()
         try:
             import xml.etree.ElementTree as ET
